@@ -380,8 +380,8 @@ static void expect(double v, int q, Expect& e)
 }
 
 // outcome histogram kept in an array (flushed into R.outcomes at the end)
-enum { O_EXACT, O_TIE, O_UP, O_DOWN, O_TEXT_OK, O_TEXT_OK_TIE, O_PARSE_EXACT, O_PARSE_NA, O_FIELD_TEXT_SAME, O_FIELD_PARSE_SAME, O_N };
-static const char *o_name[] = { "render:exact-at-q", "render:exact-tie", "render:round-up", "render:round-down", "text:ok", "text:ok-tie", "parse:exact", "parse:not-attempted",
+enum { O_EXACT, O_TIE, O_UP, O_DOWN, O_TEXT_OK, O_TEXT_OK_TIE, O_TEXT_OK_TIE_ODD, O_PARSE_EXACT, O_PARSE_NA, O_FIELD_TEXT_SAME, O_FIELD_PARSE_SAME, O_N };
+static const char *o_name[] = { "render:exact-at-q", "render:exact-tie", "render:round-up", "render:round-down", "text:ok", "text:ok-tie-to-even", "text:ok-tie-other-neighbour", "parse:exact", "parse:not-attempted",
 	"field:text-identical-to-direct", "field:parse-identical-to-direct" };
 static long long o_cnt[O_N];
 static void flush_outcomes() { for (int i = 0; i < O_N; ++i) if (o_cnt[i]) RP->outcome(o_name[i], o_cnt[i]); }
@@ -425,7 +425,8 @@ static void judge_flt(double v, int q, const FltObs& o, int stages, const std::s
 	if (o.n_direct != tdl) { R.outcome("text:bad-length"); R.viol("float-text-correctly-rounded", "modp_dtoa:returned-length-differs", mktags(), id, "length " + std::to_string(o.n_direct) + " text \"" + vh::show(td) + "\"", "strlen", ""); }
 	text_verdict(td, clause, mode);
 	if (mode) { R.outcome(std::string("text:viol:") + mode); R.viol(clause, std::string("modp_dtoa:") + mode, mktags(), id, "\"" + vh::show(td) + "\"", e.show() + " (<= " + std::to_string(q) + " fraction digits)", ""); }
-	else ++o_cnt[e.dir == 2 ? O_TEXT_OK_TIE : O_TEXT_OK];
+	else if (e.dir != 2) ++o_cnt[O_TEXT_OK];
+	else { char n[128]; norm(td, n); ++o_cnt[!strcmp(n, e.glibc) ? O_TEXT_OK_TIE : O_TEXT_OK_TIE_ODD]; }	// glibc rounds exact ties to even
 	// field layer: same text as the direct call, or judged on its own
 	if (stages >= 2) {
 		char enc[128]; const size_t el = strlen(o.t_enc);	// "44=<text>\x01"
@@ -449,8 +450,12 @@ static void judge_flt(double v, int q, const FltObs& o, int stages, const std::s
 		const double ref = strtod(td, nullptr);
 		auto ulptags = [&](unsigned long long u) {	// scope of a parse defect: the form of the text and the size of the error, nothing else
 			Tags t; if (syn == 1) t.push_back("text_exponent_form");
+			int sig = 0; bool lead = true;	// significant digits of the mantissa (leading zeros do not count, trailing ones do)
+			for (const char *c = td; *c && *c != 'e' && *c != 'E'; ++c) if (isdigit((unsigned char)*c)) { if (*c != '0') lead = false; if (!lead) ++sig; }
+			t.push_back(sig > 15 ? "text_sig_digits_gt:15" : "text_sig_digits_le:15");
 			if (u <= 1) t.push_back("atof_ulp_error_le:1");
 			if (u <= 2) t.push_back("atof_ulp_error_le:2");
+			if (u <= 3) t.push_back("atof_ulp_error_le:3");
 			if (u <= 4) t.push_back("atof_ulp_error_le:4"); else t.push_back("atof_ulp_error_gt:4");
 			return t; };
 		auto hexd = [](double d) { char b[64]; snprintf(b, sizeof b, "%a (%.17g)", d, d); return std::string(b); };
